@@ -133,6 +133,8 @@ def plans(prop, tier):
                 P.append((k, True, 'ret', items, ('pause',) + (('sigkill',) if k != 'thread' else ())))
             P.append((k, True, 'exc', 4, ()))
             P.append((k, True, 'ret', 2, ('pause', 'sigkill') if k != 'thread' else ('pause',), 'blocked'))
+        # the parent-side forwarding thread paused at its line events while the backend is SIGKILLed
+        P.append(('remote', True, 'ret', 2, ('fpause',), 'blocked'))
     elif prop == 'C16':
         for k in kinds:
             P.append((k, False, 'ret', 0, ('pause',)))
@@ -177,6 +179,9 @@ def run(prop, tier, replay=None):
             return 'opcode' if (tier == 'thorough' and k == 'thread' and prop in ('C01', 'C03')) else 'line'
         base_cases = [{'kind': k, 'persistent': p, 'ending': e, 'items': it, 'fault': 'none', 'stateful': sf, 'consumer': c, 'observe': o,
                        'granularity': gran(k)} for (k, p, e, it, f, c, o) in pl]
+        for bc, x in zip(base_cases, pl):
+            if 'fpause' in x[4]:
+                bc.update(fault='fpause', n=10 ** 6)       # the baseline records the line events of the frontend thread
         for bc in base_cases:
             if bc['observe'] == 'slowfin':
                 bc['observe'] = None
@@ -329,6 +334,8 @@ def model_labels(r):
     kind, pers = s['kind'], s['persistent'] == 'T'
     if s['fault'] == 'bigkill':
         return {'c_put2'}, 'sigkill'
+    if s['fault'] == 'fpause':
+        return set(), 'fpause'
     fault = 'pause' if s['fault'] == 'pause' else 'sigkill'
     stack = w.get('stack') or []
     funcs = [f[1] for f in stack]
